@@ -33,6 +33,10 @@ EXEMPT = {
 }
 
 
+PRINT_VARIANT_EXEMPT = {
+    ("T_trinary_operation", "_u._op._operator"): "there is one ternary operator: every construction passes the literal '?' (checked), so the member carries no information",
+}
+
 VARIANT_EXEMPT = {
     "_u._typeid._std_type_info": "the std::type_info type is the same for every typeid expression",
 }
@@ -546,6 +550,41 @@ def run(ctx):
                 ctx.ob("R06.2", "%s|%s|%s" % (which, ty, m), ok, fn.loc(stmts[0]) if stmts else fn.loc(),
                        "%s (filled from a parameter at %s) is %sread by the %s arm of %s()" % (m, site, "" if ok else "NOT ", ty, which))
     ctx.floor("R06.2", "variant-member obligations", n2, 40)
+    # ------------------------------------------------------------ R06.10: the same members are printed
+    ctx.rule("R06.10", "for every CPPExpression variant, every union member its constructor/factory fills from a parameter is read in that variant's arm of output(): what distinguishes two expressions is visible in their printed form")
+    fn = db.fn("CPPExpression::output")
+    sw = [n for n in fn.walk() if n.get("k") == "switch" and (field_of(n["c"]) or "") == "CPPExpression::_type"]
+    if not sw:
+        ctx.broken("CPPExpression::output: switch on _type not found")
+    sw = [max(sw, key=lambda n: len(switch_arms(n)))]       # the printing switch (an earlier, small one handles parentheses)
+    arm_of = {}
+    for labs, stmts in switch_arms(sw[0]):
+        for v in labs:
+            if v != "default":
+                arm_of[names.get(v)] = stmts
+    n3 = 0
+    for ty, members in sorted(variant_members.items()):
+        stmts = arm_of.get(ty)
+        if stmts is None:
+            ctx.ob("R06.10", "output|%s|arm" % ty, False, fn.loc(sw[0]), "no case %s in output()" % ty)
+            continue
+        read = set()
+        for st in stmts:
+            read |= _leaf_members(st)
+        for m, site in sorted(members.items()):
+            if m in VARIANT_EXEMPT or (ty, m) in PRINT_VARIANT_EXEMPT:
+                continue
+            n3 += 1
+            ok = m in read
+            ctx.ob("R06.10", "output|%s|%s" % (ty, m), ok, fn.loc(stmts[0]) if stmts else fn.loc(),
+                   "%s (filled from a parameter at %s) is %sread by the %s arm of output()" % (m, site, "" if ok else "NOT ", ty))
+    ctx.floor("R06.10", "variant-member obligations of the printer", n3, 20)
+    # premise of the exemption
+    tern = [c for f in db.functions for c in f.walk() if c.get("k") == "ctor" and c.get("f") == "CPPExpression::CPPExpression"
+            and (c.get("s") or "").replace(" ", "") == "void(int,CPPExpression*,CPPExpression*,CPPExpression*)"]
+    bad = [c for c in tern if const_int(c["a"][0]) != 63]
+    ctx.ob("R06.10", "trinary-constructions|operator-is-always-?", bool(tern) and not bad, "src/cppparser/cppBison.yxx",
+           "%d constructions of a ternary expression, %d with an operator other than '?'" % (len(tern), len(bad)))
     _keyword_round_trip(ctx)
 
 
